@@ -376,6 +376,9 @@ class _BoundMatch:
                 args = [0]
             out = []
             for a in args:
+                if a is m.lastgroup and getattr(m, "group_by_lastgroup", None) is not None:
+                    out.append(m.group_by_lastgroup)
+                    continue
                 if isinstance(a, str):
                     idx = next((i for i, n in m.names.items() if n == a), None)
                     if idx is None:
